@@ -79,6 +79,12 @@ def _find(fn, kind, detail):
     return found
 
 
+def _used_outside(tree, cls, attr):
+    """an attribute of that name is mentioned in the module outside the class (a protected field other code may rely on)"""
+    inside = set(id(n) for n in ast.walk(cls))
+    return any(isinstance(n, ast.Attribute) and n.attr == attr and id(n) not in inside for n in ast.walk(tree))
+
+
 class _Rename(ast.NodeTransformer):
     def __init__(self, mapping):
         self.mapping = mapping
@@ -103,7 +109,8 @@ def canonicalize(module_name, tree):
         for canon, (meth, kind, detail) in roles.items():
             if meth not in methods:
                 continue
-            found = set(f for f in _find(methods[meth], kind, detail) if f.startswith("__") and not f.endswith("__"))
+            found = set(f for f in _find(methods[meth], kind, detail) if (f.startswith("__") and not f.endswith("__")) or
+                        (f.startswith("_") and not f.startswith("__") and not _used_outside(tree, cls, f)))
             if len(found) != 1:
                 continue
             cur = found.pop()
